@@ -1,4 +1,5 @@
 import LaytheVerif.Model.Signature
+import LaytheVerif.Props.C16Rec
 /-!
 # C16 — No accepted program can crash the runtime  (DESIGN.md §5 C16)
 
@@ -28,6 +29,12 @@ runtime behaviour; the model predicts where they *cannot* happen):
   (`C16_frame_guard_text`): along **every** sequence of calls, native entries/exits and returns the frame count never
   exceeds `MAX_FRAME_SIZE` — no envelope (DC16.1 repaired: the old `==` guard with an unguarded stub push could be
   stepped over);
+* (in `Props/C16Rec.lean`, on the structured model `Model/RecFrames.lean`) `C16_temp_roots_balanced`,
+  `C16_no_root_assertion_panic`, `C16_overflow_catchable`, `C16_rec_frame_limit`, `C16_call_native_root_exits_balanced` — for
+  every program of Laythe calls, natives with callbacks, `try`s and a recursive function: the overflow is caught by the
+  innermost `try` at whatever level it sits, the run continues with the frames and temporary roots it had, `call_native`
+  leaves the temporary roots unchanged on every exit (the frame-limit test precedes `push_root(stub)`), so the debug
+  assertion `assert_roots` of an enclosing native never fires;
 * `C16_fiber_init_text`, `C16_fiber_init_any_size` — the initial stack of a fiber is copied from a slice of exactly the
   requested length, whatever that length is (D10 repaired);
 * `C16_chan_capacity_text`, `C16_chan_capacity_bounded` — `chan(n)` allocates a buffer only for 1 ≤ n ≤ `MAX_CHANNEL_CAPACITY`
